@@ -118,6 +118,15 @@ class Jobs:
                 items[i][2](st, toks)
 
 
+def far(a, b, tol):
+    """elementwise 'differs by more than tol' that is TRUE for NaN / inf (a NaN must never pass a comparison)"""
+    return ~((a - b).abs() <= tol)
+
+
+def sfar(a: float, b: float, tol: float) -> bool:
+    return not (abs(a - b) <= tol)
+
+
 def cloud_tokens(x: torch.Tensor) -> str:
     return " ".join(to_wire(v) for v in x.reshape(-1).tolist())
 
@@ -128,10 +137,81 @@ def nums(toks):
 
 # ============================================================================ cloud construction
 
+_KEPT = {}    # history stream: tensors held by the caller across calls: key -> {"x": typed tensor, "nb": bumps applied}
+_BASES = []   # (buffer, snapshot) of every larger buffer a view was cut from during the current check
+
+HIST_KINDS = ["lattice", "line", "dupes", "blobs"]
+
+
 def build_cloud(case, item=0, which="pts"):
+    """float64 cloud of batch item `item`; per-item kinds / magnitudes make mixed-regime batches"""
+    kinds, mags = case.get("item_kinds"), case.get("item_mags")
+    kind = kinds[item % len(kinds)] if kinds else case["kind"]
     r = random.Random(case["data_seed"] * 1009 + item * 31 + (0 if which == "pts" else 7))
     N = case["N"] if which == "pts" else case["N2"]
-    return U.gen_cloud(r, N, case["pdim"], case.get("extra", 0), case["kind"], case["dtype"])
+    x = U.gen_cloud(r, N, case["pdim"], case.get("extra", 0), kind, case["dtype"])
+    m = mags[item % len(mags)] if mags else case.get("mag_exp", 0)
+    if m:
+        x = x * 2.0 ** m          # exact: the whole cloud moved to a tiny / huge magnitude
+    return x
+
+
+def lay(x: torch.Tensor, layout):
+    """the same values in another memory layout (what a caller's slice / transpose / expand looks like)"""
+    if not layout or x.dim() < 2 or x.shape[-2] == 0:
+        return x
+    N, D = x.shape[-2], x.shape[-1]
+    if layout == "cols":      # columns 1..D of a wider buffer
+        base = torch.full(x.shape[:-1] + (D + 3,), 7.5, dtype=x.dtype)
+        base[..., 1:1 + D] = x
+        v = base[..., 1:1 + D]
+    elif layout == "rows":    # every second row of a longer buffer
+        base = torch.full(x.shape[:-2] + (2 * N + 1, D), -3.25, dtype=x.dtype)
+        base[..., 1:2 * N:2, :] = x
+        v = base[..., 1:2 * N:2, :]
+    elif layout == "T":       # transposed storage
+        base = x.transpose(-1, -2).contiguous()
+        v = base.transpose(-1, -2)
+    elif layout == "expand" and x.dim() >= 3:   # one cloud broadcast over the batch (stride 0)
+        base = x.reshape((-1,) + tuple(x.shape[-2:]))[0].clone()
+        v = base.expand(x.shape)
+    else:
+        return x
+    _BASES.append((base, base.clone()))
+    return v
+
+
+def apply_bump(x: torch.Tensor, j: int, seed: int):
+    """j-th in-place update a caller makes to its own tensor between two calls (add_, item assignment, copy_, mul_)"""
+    r = random.Random(seed * 77 + j)
+    N = x.shape[0]
+    a, b, c, d = (r.randrange(N) for _ in range(4))
+    t = j % 4
+    if t == 1:
+        x.add_(x[a] - x[b] if a != b else x[a])
+    elif t == 2:
+        x[a] = x[b] + (x[c] - x[d])
+    elif t == 3:
+        x.copy_(x.flip(0))
+    else:
+        x[:, 0].mul_(2)
+
+
+def kept(case, which="pts"):
+    """the caller-held tensor of a history step, brought to the state this step expects"""
+    key = case["keep"] if which == "pts" or case.get("alias") else case["keep2"]
+    ent = _KEPT.get(key)
+    if ent is None:
+        c0 = dict(case)
+        if which != "pts" and not case.get("alias"):
+            c0 = dict(case, N=case["N2"], data_seed=case["data_seed2"])
+        ent = {"x": build_cloud(c0).to(dt(case)).clone(), "nb": 0, "seed": c0["data_seed"]}
+        _KEPT[key] = ent
+    want = case.get("bump" if which == "pts" or case.get("alias") else "bump2", 0)
+    while ent["nb"] < want:
+        ent["nb"] += 1
+        apply_bump(ent["x"], ent["nb"], ent["seed"])
+    return ent["x"]
 
 
 def batch_items(case):
@@ -140,9 +220,27 @@ def batch_items(case):
 
 def stacked(case, which="pts"):
     """(batch..., N, D) tensor in the case dtype and the list of float64 per-item clouds"""
-    items = [build_cloud(case, b, which) for b in range(max(1, batch_items(case)))]
+    if case.get("keep") is not None:
+        x = kept(case, which)
+        return x, [x.double()]
+    if which == "nbr" and case.get("alias"):
+        return None, None
+    nb = max(1, batch_items(case))
+    if case.get("layout") == "expand" and case.get("batch"):
+        items = [build_cloud(case, 0, which)] * nb
+    else:
+        items = [build_cloud(case, b, which) for b in range(nb)]
     x = torch.stack(items).reshape(tuple(case.get("batch", [])) + tuple(items[0].shape)).to(dt(case))
-    return x, items
+    return lay(x, case.get("layout")), items
+
+
+def single(case):
+    """(float64 cloud, typed tensor handed to the implementation) for the unbatched functions"""
+    if case.get("keep") is not None:
+        x = kept(case)
+        return x.double(), x
+    X64 = build_cloud(case)
+    return X64, lay(X64.to(dt(case)), case.get("layout"))
 
 
 def spectrum(K: np.ndarray):
@@ -219,7 +317,7 @@ def topk_verdict(drow, Krow, sel, k, largest, is_sorted, tol, exact):
         if exact:
             if Krow[sel_eff[t]] != Krow[order[t]]:
                 return False, f"rank {t}: index {sel_eff[t]} at distance {a!r}, but the rank-{t} distance is {b!r}"
-        elif abs(a - b) > 4 * tol * max(a, b):
+        elif sfar(a, b, 4 * tol * max(a, b)):
             return False, f"rank {t}: index {sel_eff[t]} at distance {a!r}, but the rank-{t} distance is {b!r}"
     return True, ""
 
@@ -282,7 +380,7 @@ def check_knn(ctx: Ctx, case, jobs: Jobs | None = None) -> bool:
                 return False
             for t, j in enumerate(sel):
                 v = vals_l[i][t]
-                if abs(v - d[i][j]) > tol * max(d[i][j], abs(v)) + 0.0:
+                if sfar(v, d[i][j], tol * max(d[i][j], abs(v))):
                     ctx.fail(case, f"knn-values: batch {b} reference {i} rank {t}: value {v!r} but the distance to "
                                    f"index {j} is {d[i][j]!r} (ord={o})")
                     return False
@@ -302,7 +400,7 @@ def check_knn(ctx: Ctx, case, jobs: Jobs | None = None) -> bool:
                 for i in range(case["N"]):
                     for t in range(k):
                         a, m = float(vals_b[i, t]), mv[i * k + t]
-                        if is_sorted and abs(a - m) > tol * max(abs(a), abs(m)):
+                        if is_sorted and sfar(a, m, tol * max(abs(a), abs(m))):
                             ctx.disagree("knn", case, f"batch {b} row {i} rank {t}: value {a!r} model {m!r}")
                             return
                     if is_sorted and unamb[i] and idx_b[i].tolist() != mi[i * k:(i + 1) * k]:
@@ -388,8 +486,7 @@ def nbr_oracle(case, X64, radius, o, pdim):
 def check_nbr(ctx: Ctx, case, jobs: Jobs | None = None) -> bool:
     P = pp()
     o, n, pdim, radius = case["ord"], case["n"], case["pdim_arg"], case["radius"]
-    X64 = build_cloud(case)
-    X = X64.to(dt(case))
+    X64, X = single(case)
     pd = case["pdim"] if pdim is None else pdim
     mon = common.PurityMonitor()
     kw = dict(nbr=n, radius=radius, ord=U.ord_arg(o), return_mask=True)
@@ -504,8 +601,7 @@ def voxel_oracle(case, X64, vox):
 def check_voxel(ctx: Ctx, case, jobs: Jobs | None = None) -> bool:
     P = pp()
     vox = case["voxel"]
-    X64 = build_cloud(case)
-    X = X64.to(dt(case))
+    X64, X = single(case)
     N, D = X.shape
     keys, amb = voxel_oracle(case, X64, vox)
     if amb:
@@ -535,12 +631,12 @@ def check_voxel(ctx: Ctx, case, jobs: Jobs | None = None) -> bool:
         cnts = torch.tensor([len(groups[kk]) for kk in ukeys], dtype=torch.float64).unsqueeze(1)
         tolm = (64 + 2 * cnts) * eps * scale
         got = out.double()
-        bad = (got - want).abs() > tolm
+        bad = far(got, want, tolm)
         if bool(bad.any()):
             # same set in another order?  (the property does not fix the order of the voxels)
             used, match = set(), True
             for j in range(M):
-                cand = [q for q in range(M) if q not in used and not bool(((got[q] - want[j]).abs() > tolm[j]).any())]
+                cand = [q for q in range(M) if q not in used and not bool(far(got[q], want[j], tolm[j]).any())]
                 if not cand:
                     match = False
                     break
@@ -569,8 +665,8 @@ def check_voxel(ctx: Ctx, case, jobs: Jobs | None = None) -> bool:
                     ctx.disagree("voxel", case, "model voxel keys differ from the exact oracle's")
                     return
                 mv = torch.tensor(nums(toks[1 + M * vd:]), dtype=torch.float64).reshape(M, D)
-                if bool(((got - mv).abs() > tolm).any()) and "voxel.order-differs" not in ctx.hist:
-                    j = int(((got - mv).abs() > tolm).any(1).nonzero()[0])
+                if bool(far(got, mv, tolm).any()) and "voxel.order-differs" not in ctx.hist:
+                    j = int(far(got, mv, tolm).any(1).nonzero()[0])
                     ctx.disagree("voxel", case, f"row {j}: implementation {got[j].tolist()} model {mv[j].tolist()}")
             jobs.add(N * M, line, cb)
         if case.get("perm_seed") is not None:
@@ -578,7 +674,7 @@ def check_voxel(ctx: Ctx, case, jobs: Jobs | None = None) -> bool:
             sg = list(range(N))
             r.shuffle(sg)
             o2 = P.voxel_filter(X[sg], list(vox)).double()
-            if o2.shape != got.shape or bool(((o2 - got).abs() > 2 * tolm).any()):
+            if o2.shape != got.shape or bool(far(o2, got, 2 * tolm).any()):
                 ctx.fail(case, "voxel-equivariance: result changes under a permutation of the points")
                 return False
         return True
@@ -709,7 +805,7 @@ def check_knnf(ctx: Ctx, case, jobs: Jobs | None = None) -> bool:
             ctx.count("knnf.rows-checked")
             want = X64[nb].mean(0)
             tolm = (64 + 2 * (k + 1)) * eps * X64[nb].abs().amax(0)
-            if bool(((got[r_] - want).abs() > tolm).any()):
+            if bool(far(got[r_], want, tolm).any()):
                 ctx.fail(case, f"knnf-mean: output row {r_} (input point {i}) is {got[r_].tolist()} but the mean of the point and "
                                f"its {k} nearest neighbours {nb[1:] if nb[0] == i else nb} is {want.tolist()} "
                                f"(radius={radius!r}, ord={o}, pdim={pd})")
@@ -730,7 +826,7 @@ def check_knnf(ctx: Ctx, case, jobs: Jobs | None = None) -> bool:
                 mv = torch.tensor(nums(toks[1:]), dtype=torch.float64).reshape(Mm, D)
                 tolm = (64 + 2 * (k + 1)) * eps * X64.abs().amax(0)
                 for r_ in range(Mm):
-                    if unamb[r_] and bool(((got[r_] - mv[r_]).abs() > tolm).any()):
+                    if unamb[r_] and bool(far(got[r_], mv[r_], tolm).any()):
                         ctx.disagree("knnf", case, f"row {r_}: implementation {got[r_].tolist()} model {mv[r_].tolist()}")
                         return
             jobs.add(N * N, line, cb)
@@ -755,7 +851,7 @@ def check_knnf(ctx: Ctx, case, jobs: Jobs | None = None) -> bool:
             tolm = (64 + 2 * (k + 1)) * eps * X64.abs().amax(0)
             for ii, i in enumerate(sg):
                 if row_unambiguous(rows[i], d[i], k + 1, False, tol, exact):
-                    if bool(((o2[ii] - outs[0][i]).abs() > tolm).any()):
+                    if bool(far(o2[ii], outs[0][i], tolm).any()):
                         ctx.fail(case, f"knnf-equivariance: the row of point {i} changes under a permutation of the cloud")
                         return False
     return True
@@ -932,7 +1028,7 @@ def check_camera(ctx: Ctx, case, jobs: Jobs | None = None) -> bool:
     tolu = 64 * eps * (A[..., :2] / den.abs().unsqueeze(-1) + want.abs() * (A[..., 2] / den.abs()).unsqueeze(-1)) \
         + 64 * eps * want.abs()
     okmask = (den.abs() > 4 * tiny) & (A[..., 2] / den.abs() < 1e-3 / eps)
-    bad = ((uvB - want).abs() > tolu) & okmask.unsqueeze(-1)
+    bad = far(uvB, want, tolu) & okmask.unsqueeze(-1)
     if bool(bad.any()):
         b, i, c = [int(v) for v in bad.nonzero()[0]]
         ctx.fail(case, f"camera-project: point2pixel item {b},{i} gives {uvB[b, i].tolist()}, K·(X·p) dehomogenised is "
@@ -954,7 +1050,7 @@ def check_camera(ctx: Ctx, case, jobs: Jobs | None = None) -> bool:
                     return
                 mv = nums(toks)
                 for c in range(2):
-                    if abs(mv[c] - float(uvB[b, i, c])) > float(tolu[b, i, c]):
+                    if sfar(mv[c], float(uvB[b, i, c]), float(tolu[b, i, c])):
                         ctx.disagree("camera", case, f"point2pixel item {b},{i}: implementation {uvB[b, i].tolist()} model {mv}")
                         return
             jobs.add(1, line, cb)
@@ -992,7 +1088,7 @@ def check_camera(ctx: Ctx, case, jobs: Jobs | None = None) -> bool:
         else:
             wantE = delta.abs().sum(-1)
         fm = fin if red != "none" else fin.unsqueeze(-1).expand_as(e1)
-        if bool(((e1 - wantE).abs() > 64 * eps * (wantE.abs() + mag.expand_as(uv).amax(-1, keepdim=(red == "none")).expand_as(e1)))[fm].any()):
+        if bool(far(e1, wantE, 64 * eps * (wantE.abs() + mag.expand_as(uv).amax(-1, keepdim=(red == "none")).expand_as(e1)))[fm].any()):
             ctx.fail(case, f"camera-reproj-value: reprojerr({red}) off the projection by {pat} x mag is wrong "
                            f"(e.g. {e1.flatten()[:4].tolist()} expected {wantE.flatten()[:4].tolist()})")
             return False
@@ -1035,8 +1131,8 @@ def check_camera(ctx: Ctx, case, jobs: Jobs | None = None) -> bool:
         cxy = torch.stack([K[..., 0, 2], K[..., 1, 2]], -1).unsqueeze(-2)
         fxy = torch.stack([K[..., 0, 0], K[..., 1, 1]], -1).unsqueeze(-2)
         tolb = 64 * eps * (px.abs() + 2 * cxy.abs())
-        if bool(((back.double() - px).abs() > tolb).any()):
-            j = ((back.double() - px).abs() > tolb).nonzero()[0].tolist()
+        if bool(far(back.double(), px, tolb).any()):
+            j = far(back.double(), px.expand_as(back), tolb).nonzero()[0].tolist()
             ctx.fail(case, f"camera-inverse: point2pixel(pixel2point(px, depth)) != px at {j}: "
                            f"{back.double()[tuple(j[:-1])].tolist()} vs {px.expand_as(back)[tuple(j[:-1])].tolist()}")
             return False
@@ -1063,7 +1159,7 @@ def check_camera(ctx: Ctx, case, jobs: Jobs | None = None) -> bool:
                     mv = nums(toks)
                     for c in range(3):
                         sc = abs(mv[c]) + (abs(float(K2[b, c, 2] * dB[b, i] / K2[b, c, c])) if c < 2 else 0)
-                        if abs(mv[c] - float(P3B[b, i, c])) > 64 * eps * sc:
+                        if sfar(mv[c], float(P3B[b, i, c]), 64 * eps * sc):
                             ctx.disagree("camera", case, f"pixel2point item {b},{i}: implementation {P3B[b, i].tolist()} model {mv}")
                             return
                 jobs.add(1, line, cb)
@@ -1074,7 +1170,7 @@ def check_camera(ctx: Ctx, case, jobs: Jobs | None = None) -> bool:
             P4 = P.pixel2point(uv2, ptsT[..., 2].expand(uv2.shape[:-1]), KT).double()
             ptsE = pts.expand_as(P4)
             tolp = 64 * eps * (ptsE.abs() + 2 * (cxy.abs() * ptsE[..., 2:3].abs() / fxy.abs()).expand_as(ptsE[..., :2]).abs().amax(-1, keepdim=True))
-            badp = ((P4 - ptsE).abs() > tolp) & zok.expand(P4.shape[:-1]).unsqueeze(-1)
+            badp = far(P4, ptsE, tolp) & zok.expand(P4.shape[:-1]).unsqueeze(-1)
             if bool(badp.any()):
                 j = badp.nonzero()[0].tolist()
                 ctx.fail(case, f"camera-inverse: pixel2point(point2pixel(p), p.z) != p at {j}: {P4[tuple(j[:-1])].tolist()} vs "
@@ -1129,8 +1225,8 @@ def check_homo(ctx: Ctx, case, jobs: Jobs | None = None) -> bool:
     den = torch.where(w64 < 0, -1.0, 1.0) * w64.abs().clamp(min=tiny)
     want = q.double() / den
     finite = torch.isfinite(want.to(T)).all(-1, keepdim=True).expand_as(want)
-    if bool((((out.double() - want).abs() > 16 * eps * want.abs() + 2 * tiny) & finite).any()):
-        j = (((out.double() - want).abs() > 16 * eps * want.abs() + 2 * tiny) & finite).nonzero()[0].tolist()
+    if bool((far(out.double(), want, 16 * eps * want.abs() + 2 * tiny) & finite).any()):
+        j = (far(out.double(), want, 16 * eps * want.abs() + 2 * tiny) & finite).nonzero()[0].tolist()
         ctx.fail(case, f"homo-divide: homo2cart at {j}: {out[tuple(j)].item()!r}, expected p / (pm(w)*max(|w|, tiny)) = "
                        f"{want[tuple(j)].item()!r} (w={ws[tuple(j[:-1])].item()!r})")
         return False
@@ -1145,7 +1241,7 @@ def check_homo(ctx: Ctx, case, jobs: Jobs | None = None) -> bool:
 
             def cb(st, toks, b=b):
                 mv = nums(toks) if st == "ok" else None
-                if mv is None or any(abs(a - c) > 16 * eps * abs(a) + 2 * tiny for a, c in zip(mv, flat_o[b].tolist())):
+                if mv is None or any(sfar(a, c, 16 * eps * abs(a) + 2 * tiny) for a, c in zip(mv, flat_o[b].tolist())):
                     ctx.disagree("homo", case, f"homo2cart({flat_h[b].tolist()}) implementation {flat_o[b].tolist()} model {mv}")
             jobs.add(1, line, cb)
     return True
